@@ -451,7 +451,12 @@ pub fn oracle_c15_events(scn: &E2Scn, d: &D2, stats: &mut Stats) -> Vec<Violatio
     for (tag, n) in &cb {
         stats.hit("fault:watcher-callback-error");
         // the message is printed twice inside one handler call (display + debug); count handler calls
-        let calls = d.errs.iter().filter(|e| e.2.contains(tag.as_str())).count();
+        // (the tag followed by a non-digit: "...-24" must not count "...-240")
+        let calls = d
+            .errs
+            .iter()
+            .filter(|e| e.2.match_indices(tag.as_str()).any(|(i, m)| !e.2[i + m.len()..].starts_with(|c: char| c.is_ascii_digit())))
+            .count();
         if calls > 1 {
             vs.push(Violation::new("runtime-error-duplicated", "source=watcher-callback", format!("{tag} reached the error handler {calls} times ({n})")));
         }
@@ -592,7 +597,8 @@ pub fn gen_events_opt(rng: &mut Rng, faults: bool, stalls: bool) -> E2Scn {
     let throttle = *rng.pick(&[0u64, 1, 10, 50, 50]);
     let n_prod = rng.range(1, 4) as usize;
     let big = rng.chance(1, 5);
-    let n_events = rng.range(1, if big { 60 } else { 14 });
+    // (one in 40: a very long stream)
+    let n_events = if rng.chance(1, 40) { rng.range(120, 300) } else { rng.range(1, if big { 60 } else { 14 }) };
     let mut producers: Vec<Vec<PStep>> = vec![Vec::new(); n_prod];
     let mut verdicts = Vec::new();
     let handler_async = rng.chance(1, 2);
@@ -1334,7 +1340,8 @@ pub fn gen_fswatch(rng: &mut Rng, faults: bool) -> E2Scn {
     s.init_paths = gen_paths(rng);
     s.init_poll = if rng.chance(1, 4) { Some(50) } else { None };
     let long = rng.chance(1, 4);
-    let n = rng.range(1, if long { 8 } else { 3 });
+    // (one in 25: a long series of changes)
+    let n = if rng.chance(1, 25) { rng.range(12, 40) } else { rng.range(1, if long { 8 } else { 3 }) };
     for _ in 0..n {
         let c = gen_change(rng);
         match rng.below(10) {
@@ -1573,11 +1580,13 @@ use crate::e2::{JobPlan, QuitPlan};
 
 pub fn gen_quit(rng: &mut Rng) -> E2Scn {
     let mut s = E2Scn { family: "quit".into(), throttle: *rng.pick(&[0u64, 10]), probe: false, ..Default::default() };
-    let n_jobs = match rng.below(10) {
-        0 => 0,
-        1..=6 => 1,
-        7 | 8 => 2,
-        _ => 3,
+    let n_jobs = match rng.below(25) {
+        0 | 1 => 0,
+        2..=15 => 1,
+        16..=20 => 2,
+        21..=23 => 3,
+        // many jobs
+        _ => rng.range(6, 14),
     };
     let quit_batch = rng.range(0, 2) as u32;
     let graceful = if rng.chance(1, 2) { None } else { Some((*rng.pick(&[15i32, 2, 1, 10, 9, 9]), *rng.pick(&[0u64, 0, 1, 10, 100, 1000, 10_000]))) };
